@@ -8,8 +8,11 @@ CHECK = {
         unit("calculate-ttl", "framework", ["framework/c05_ttl_test.go"], "^TestVerif_C05_",
              quick={"checks": 50000, "shards": 1, "cap": 300},
              thorough={"checks": 400000, "shards": 8, "cap": 1200}),
-        unit("leases", "vault", ["vault/c05_test.go"], "^TestVerif_C05_",
+        unit("leases", "vault", ["vault/c05_test.go"], "^TestVerif_C05_Leases$",
              quick={"checks": 100, "shards": 1, "cap": 900, "steps": 25},
              thorough={"checks": 500, "shards": 16, "cap": 3000, "steps": 50}),
+        unit("leases-namespaces", "vault", ["vault/c05ns_test.go"], "^TestVerif_C05_LeasesNamespaces$",
+             quick={"checks": 70, "shards": 1, "cap": 900, "steps": 30},
+             thorough={"checks": 400, "shards": 16, "cap": 3000, "steps": 50}),
     ],
 }
